@@ -55,6 +55,7 @@ class TableLM(SequentialLanguageModel):
             self.table.requires_grad_(True)
         self.protocol_errors = []
         self.calls = 0
+        self.fail_next = 0  # harness switch: the next call raises (an environment failure the caller catches)
 
     def update_input(self, prev: Dict[str, torch.Tensor], hist: torch.Tensor) -> Dict[str, torch.Tensor]:
         if "code" in prev:
@@ -75,6 +76,9 @@ class TableLM(SequentialLanguageModel):
         self, hist: torch.Tensor, prev: Dict[str, torch.Tensor], idx: torch.Tensor
     ) -> Tuple[torch.Tensor, Dict[str, torch.Tensor]]:
         self.calls += 1
+        if self.fail_next:
+            self.fail_next -= 1
+            raise RuntimeError("TableLM: injected failure")
         if idx.dim() != 0:
             if idx.numel() != 1:
                 raise NotImplementedError("TableLM: per-element idx")
